@@ -1,6 +1,7 @@
 package app
 
 import (
+	"bytes"
 	"encoding/hex"
 	"fmt"
 	"math"
@@ -262,6 +263,16 @@ func (app *App) txChecker() txChecker {
 		if err != nil {
 			app.logger.Errorf("checkTx failed to deserialize msg: %v, error: %s ", msg, err)
 		}
+		// replay protection is keyed by the hash of the raw bytes while the signatures cover the
+		// canonical serialisation of the parsed content: only the canonical encoding is accepted,
+		// otherwise one signed transaction could be submitted again in endlessly many encodings
+		if err == nil && !bytes.Equal(msg.Tx, tx.SignedBytes()) {
+			app.Context.check.DiscardTxSession()
+			return ResponseCheckTx{
+				Code: CodeNotOK.uint32(),
+				Log:  "transaction is not in its canonical encoding",
+			}
+		}
 		txCtx := app.Context.Action(&app.header, app.Context.check)
 		handler := txCtx.Router.Handler(tx.Type)
 
@@ -326,6 +337,14 @@ func (app *App) txDeliverer() txDeliverer {
 		err := serialize.GetSerializer(serialize.NETWORK).Deserialize(msg.Tx, tx)
 		if err != nil {
 			app.logger.Errorf("deliverTx failed to deserialize msg: %v, error: %s ", msg, err)
+		}
+		// only the canonical encoding of a transaction is accepted (see txChecker)
+		if err == nil && !bytes.Equal(msg.Tx, tx.SignedBytes()) {
+			app.Context.deliver.DiscardTxSession()
+			return ResponseDeliverTx{
+				Code: CodeNotOK.uint32(),
+				Log:  "transaction is not in its canonical encoding",
+			}
 		}
 		txCtx := app.Context.Action(&app.header, app.Context.deliver)
 
